@@ -50,3 +50,20 @@ Theorem C04_unique_if_dominant : forall (m : Mesh ROps) (D u : fvar ROps) (x y a
   forall c, In c cells -> x c = y c.
 Proof. exact solution_unique. Qed.
 Print Assumptions C04_unique_if_dominant.
+
+From Coq Require Import Reals.
+From PFV Require Import Boundary Solver MaxPrincipleThy MaxPrincipleModel ComparisonThy.
+
+(* uniqueness for every closure the comparison principle covers (Dirichlet, no-flux, Robin of one sign, periodic images) *)
+Theorem C04_unique_general : forall (m : Mesh ROps) (D u : fvar ROps) (kap x y f : cvar ROps) (cells : list cell),
+  cells <> nil ->
+  (forall c a, In c cells -> In a (active_axes ROps m) -> (1 <= cidx a c <= mN ROps m a)%nat /\ signs_ok m D c a) ->
+  (forall c, In c cells -> Lrow m D u kap x c = f c) ->
+  (forall c, In c cells -> Lrow m D u kap y c = f c) ->
+  (forall c, In c cells -> rsuml (fun a => divrow ROps m u a c) (active_axes ROps m) = 0) ->
+  (forall c, In c cells -> 0 < kap c) ->
+  (forall c a, In c cells -> In a (active_axes ROps m) ->
+     nb_homog cells (fun c => x c - y c) c (cdn a c) /\ nb_homog cells (fun c => x c - y c) c (cup a c)) ->
+  forall c, In c cells -> x c = y c.
+Proof. exact unique_general. Qed.
+Print Assumptions C04_unique_general.
